@@ -511,22 +511,6 @@ func randomForest(r *rand.Rand, budget *int, depth int) []T {
 	return out
 }
 
-// number assigns preorder markers.
-func number(ts []T) []T {
-	n := 0
-	var walk func(ts []T)
-	walk = func(ts []T) {
-		for i := range ts {
-			ts[i].M = fmt.Sprint(n)
-			n++
-			walk(ts[i].Args)
-			walk(ts[i].Kids)
-		}
-	}
-	walk(ts)
-	return ts
-}
-
 // ---------------------------------------------------------------- driver
 
 type job struct {
@@ -695,13 +679,16 @@ func firstLines(s string, n int) string {
 	return strings.Join(ls, " | ")
 }
 
-// shrinkAll reduces every failing forest to a canonical witness, all forests
-// in lock step so that each round is one batch of driver work; forests that
-// become equal are merged. Steps: (1) blame slice, kept if it still fails;
-// (2) greedy one-step size reductions until none fails; (3) renaming of kinds
-// to class representatives while the tree still fails, then (2) again.
-func (e *engine) shrinkAll(failing [][]T, obsFailing []string) (min [][]T, obs []string) {
-	cur := map[string][]T{}
+// Reduction of failing forests to canonical witnesses, all forests in lock
+// step so that each round is one batch of driver work; forests that become
+// equal are merged. sliceAndCap (after every batch): (1) blame slice, kept if
+// it still fails, then at most perSignature forests per signature are kept.
+// shrinkAll (at the end): (2) greedy one-step size reductions and (3) renaming
+// of kinds to class representatives, while the tree still fails.
+func (e *engine) sliceAndCap(cur map[string][]T, failing [][]T, obsFailing []string) map[string][]T {
+	if cur == nil {
+		cur = map[string][]T{}
+	}
 	var slices [][]T
 	for i, f := range failing {
 		slices = append(slices, canon(blameSlice(f, expected(f), obsFailing[i])))
@@ -715,9 +702,13 @@ func (e *engine) shrinkAll(failing [][]T, obsFailing []string) (min [][]T, obs [
 		}
 		cur[key(f)] = f
 	}
-	dbg("blame slices that still fail: %d of %d; distinct %d", sliced, len(failing), len(cur))
+	dbg("blame slices that still fail: %d of %d; distinct so far %d", sliced, len(failing), len(cur))
 	cur = capBySignature(cur)
 	dbg("after the per-signature cap: %d", len(cur))
+	return cur
+}
+
+func (e *engine) shrinkAll(cur map[string][]T) (min [][]T, obs []string) {
 	done := map[string][]T{}
 	for round := 0; len(cur) > 0 && round < 400; round++ {
 		dbg("shrink round %d: %d forests", round, len(cur))
@@ -860,8 +851,8 @@ func Run(c *core.Ctx) {
 		return
 	}
 
-	var failing [][]T
-	var failingObs []string
+	var front map[string][]T // failing trees kept for reduction (sliced, capped per signature)
+	nfail := 0
 	maxNodes, nontriv, total := 0, 0, 0
 	// process evaluates one batch of forests and collects the failing ones.
 	process := func(forests [][]T) {
@@ -871,6 +862,14 @@ func Run(c *core.Ctx) {
 		got := e.eval(forests)
 		total += len(forests)
 		dbg("rendered %d", total)
+		var failing [][]T
+		var failingObs []string
+		defer func() {
+			if len(failing) > 0 {
+				nfail += len(failing)
+				front = e.sliceAndCap(front, failing, failingObs)
+			}
+		}()
 		for i, f := range forests {
 			c.Eval(1)
 			if strings.HasPrefix(got[i], "INCONCLUSIVE") {
@@ -926,12 +925,14 @@ func Run(c *core.Ctx) {
 	c.Set("random_trees", nr)
 	c.Set("kinds", len(allKinds))
 	c.Set("max_nodes", maxNodes)
-	c.Set("failing_trees_before_reduction", len(failing))
-	dbg("failing %d", len(failing))
-	if len(failing) == 0 {
+	c.Set("failing_trees_before_reduction", nfail)
+	dbg("failing %d", nfail)
+	seen := map[string]bool{}
+	defer reportStale(c, seen)
+	if nfail == 0 {
 		return
 	}
-	min, obs := e.shrinkAll(failing, failingObs)
+	min, obs := e.shrinkAll(front)
 	c.Set("reduction_cap_per_signature", perSignature)
 	c.Set("canonical_witnesses", len(min))
 	for i, f := range min {
@@ -939,6 +940,19 @@ func Run(c *core.Ctx) {
 		if obs[i] == want { // cannot happen (min forests failed when selected); be safe
 			continue
 		}
+		seen["tree: "+key(f)] = true
 		c.Violate("tree: "+key(f), fmt.Sprintf("children do not go exactly to their call site: tree %s expected structure %s, rendered %s", key(f), want, obs[i]), f)
 	}
+}
+
+// reportStale records the listed known findings (all small enough to be part
+// of the exhaustive enumeration of every run) that did not fail in this run.
+func reportStale(c *core.Ctx, seen map[string]bool) {
+	stale := []string{}
+	for _, k := range c.KnownKeys() {
+		if !seen[k] {
+			stale = append(stale, k)
+		}
+	}
+	c.Set("known_findings_not_reproduced", stale)
 }
